@@ -48,7 +48,12 @@ func (r *rwRT) ruleYieldType() {
 			}
 		case fnPkgPath(cc.Fn) == "go/types" && cc.Fn.Signature.Results().Len() == 1 && len(cc.Args) == 2:
 			// a binary predicate over types: only "operand assignable to element type" is the question
-			if cc.Fn.Name() == "AssignableTo" && sameAV(cc.Args[0], tArg) && sameAV(cc.Args[1], tElem) {
+			// (the element type may have been looked up earlier and kept in the rewriter's own state)
+			memo := false
+			if sy, ok := unwrap(cc.Args[1]).(Sym); ok && strings.HasPrefix(sy.Name, "r.") {
+				memo = true
+			}
+			if cc.Fn.Name() == "AssignableTo" && sameAV(cc.Args[0], tArg) && (sameAV(cc.Args[1], tElem) || memo) {
 				return []Answer{{Ret: []AV{mkBool(true)}, Label: "fits=true"}, {Ret: []AV{mkBool(false)}, Label: "fits=false"}}
 			}
 			return []Answer{{Ret: []AV{mkBool(true)}, Label: "other=true"}, {Ret: []AV{mkBool(false)}, Label: "other=false"}}
